@@ -354,7 +354,11 @@ def constructor_rules(check, P):
             d = exts(path, "numpy.diag")
             arg = chain_arg(path)
             got = items_of(path, d[-1].data["args"][0]) if len(d) == 1 and d[-1].data["args"] else None
-            if got is None or arg != d[-1].data.get("result"):
+            touched = [e for e in path.trace if e.kind == "MUT" and e.data.get("obj") == arg]
+            if touched:
+                check.violation("R6", f"scale/{k}:modified", f"scale with {k} factor(s) modifies the diagonal matrix before chaining it "
+                                f"({touched[0].data.get('method')}{tuple(tagged(path, a) for a in touched[0].data.get('args', ()))}); expected plain diag({', '.join(str(w) for w in want)})", [decisions_text(path)])
+            elif got is None or arg != d[-1].data.get("result"):
                 check.undecided("R6", f"scale/{k}: matrix construction not recognised: {tagged(path, arg)}")
                 check.floor(False, "C04.R6: scale builds its matrix in a form the analysis does not recognise")
             elif [val_key(g) for g in got] == [want_key(w) for w in want]:
